@@ -6,6 +6,7 @@ import (
 	"fmt"
 	"go/ast"
 	"go/token"
+	"go/types"
 	"strings"
 )
 
@@ -80,8 +81,38 @@ func checkC17(c *Ctx, r *Report) {
 			r.Check(ok, "C17.a", "R2 ORDER", name+"/"+tf+"-guarded-by-IsTrace", sk.pos(fd.Pos()), tf+" is exactly `if IsTrace { … }`", tf+" is not guarded by IsTrace alone")
 		}
 		if ts := sk.FuncDecl("", "TraceShift"); ts != nil {
-			src := printNode(sk.Fset, ts.Body)
-			ok := strings.Contains(src, "TraceTranslate(s.YySymIndex), s.Yystate")
+			// a print whose arguments include TraceTranslate(<entry>.YySymIndex) and <entry>.Yystate of the pushed entry
+			ok := false
+			var entry types.Object
+			if ts.Type.Params != nil && len(ts.Type.Params.List) == 1 && len(ts.Type.Params.List[0].Names) == 1 {
+				entry = sk.Info.Defs[ts.Type.Params.List[0].Names[0]]
+			}
+			ast.Inspect(ts.Body, func(n ast.Node) bool {
+				call, isC := n.(*ast.CallExpr)
+				if !isC || entry == nil {
+					return true
+				}
+				if fn := callee(sk.Info, call); fn == nil || !isFmtPrint(fn, call) {
+					return true
+				}
+				sym, state := false, false
+				for _, a := range call.Args {
+					if tc, isT := unparen(a).(*ast.CallExpr); isT && len(tc.Args) == 1 {
+						if fn := callee(sk.Info, tc); fn != nil && fn.Name() == "TraceTranslate" {
+							if se, isS := unparen(tc.Args[0]).(*ast.SelectorExpr); isS && se.Sel.Name == "YySymIndex" && identObj(sk.Info, se.X) == entry {
+								sym = true
+							}
+						}
+					}
+					if se, isS := unparen(a).(*ast.SelectorExpr); isS && se.Sel.Name == "Yystate" && identObj(sk.Info, se.X) == entry {
+						state = true
+					}
+				}
+				if sym && state {
+					ok = true
+				}
+				return true
+			})
 			r.Check(ok, "C17.a", "R1 PROVENANCE", name+"/TraceShift-arguments", sk.pos(ts.Pos()), "the shift line shows the pushed entry's own symbol and state", "the shift line does not print the pushed entry's symbol and state")
 		}
 		// (4) reduce branch: TraceReduce(reduceIndex, gotoState, TraceTranslate(lookAhead)) between lookup and push
